@@ -2,6 +2,7 @@
 // time, free-running I/O thread).  One execution = one scenario of spec/timer/IoTimers (shared JSON):
 //   due[i]   tick of op i:  <= 0 -> t_start + tick*UNIT (already due when started), 1..6 -> T0 + (tick-1)*UNIT with
 //            T0 = t_start + lead, >= 9 -> t_start + 60 s ("far": only ever completes by cancellation); + fine[i] us
+//            rel[i] = 1: due = (clock at the moment of the start) + fine[i] us
 //   arm[i]   0 = started remotely by the client thread (in index order), k > 0 = started on the I/O thread inside the
 //            completion of op k;   on[k] = script run inside k's completion: ["arm",i] / ["stop",i] (local request_stop)
 //   stop/stopAt/bmode/race: one remote request_stop on op `stop`: stopAt 0 with bmode before|with|after the client's
@@ -88,7 +89,7 @@ static void hook(const char* site, int, const void*) noexcept {
 
 struct Act { char k; int op; };
 struct Scenario {
-  int id; std::string ctx; std::vector<int> due, arm, fine; std::vector<std::vector<Act>> on;
+  int id; std::string ctx; std::vector<int> due, arm, fine, rel; std::vector<std::vector<Act>> on;
   int stop, stopAt; std::string bmode, race;
 };
 
@@ -142,6 +143,8 @@ struct World {
   long long now_us() { return rel_us(ctx.get_scheduler().now()); }
   tp_t due_tp(int i) const { return t_start + std::chrono::microseconds(dueUs[i]); }
   void arm(int i, int sync) {
+    // rel[i]: the due time is `fine[i]` us after the moment of the start (a timer that is almost due when submitted)
+    if (i - 1 < (int)scn->rel.size() && scn->rel[i - 1]) dueUs[i] = now_us() + scn->fine[i - 1];
     auto s = ctx.get_scheduler().schedule_at(due_tp(i));
     using S = decltype(s);
     OpBase* p = new OpHolder<S, Rcv<Ctx>>(std::move(s), Rcv<Ctx>{this, i});
@@ -292,6 +295,7 @@ int main(int argc, char** argv) {
     for (auto& s : j) { Scenario sc; sc.id = s["id"].get<int>(); sc.ctx = s.value("ctx", std::string("ep"));
       sc.due = s["due"].get<std::vector<int>>(); sc.arm = s["arm"].get<std::vector<int>>();
       if (s.contains("fine")) sc.fine = s["fine"].get<std::vector<int>>();
+      if (s.contains("rel")) sc.rel = s["rel"].get<std::vector<int>>();
       for (auto& o : s["on"]) sc.on.push_back(parseProg(o));
       sc.stop = s["stop"].get<int>(); sc.stopAt = s["stopAt"].get<int>();
       sc.bmode = s.value("bmode", std::string("after")); sc.race = s.value("race", std::string("free"));
